@@ -7,6 +7,7 @@ import glob
 import json
 import os
 import re
+import shutil
 import subprocess
 import sys
 import time
@@ -128,7 +129,14 @@ def compile_properties(prop: str, timeout: int = 300) -> dict:
     src = open(os.path.join(COQ, rel)).read()
     theorems = [m.group(2) for m in THM_RE.finditer(src) if m.group(1) == "Theorem"]
     printed = re.findall(r"Print\s+Assumptions\s+([A-Za-z0-9_']+)\s*\.", src)
-    rc, out = sh(["coqc", "-Q", ".", "V", "-w", "-notation-overridden,-deprecated", rel], timeout, cwd=COQ)
+    # compiled into a private directory: the shared tree is only read, so this can run outside the build lock
+    outdir = os.path.join(BUILD, "pp", f"{prop}.{os.getpid()}")
+    os.makedirs(outdir, exist_ok=True)
+    try:
+        rc, out = sh(["coqc", "-Q", ".", "V", "-w", "-notation-overridden,-deprecated", "-noglob", "-o", os.path.join(outdir, prop + ".vo"), rel],
+                     timeout, cwd=COQ)
+    finally:
+        shutil.rmtree(outdir, ignore_errors=True)
     res = {"ok": rc == 0, "theorems": theorems, "assumptions": {}, "log": out, "errors": []}
     if rc != 0:
         for m in ERR_RE.finditer(out):
